@@ -45,6 +45,10 @@ with cf.ThreadPoolExecutor(max_workers=16) as ex:
     res = list(ex.map(one, dirs))
 out = {}
 for d, prop, meta, det in res:
+    if 'apply' in det:
+        print(f'{d:12} {prop}  PATCH DOES NOT APPLY to the current tree (rebase it with tools/rebase_patch.py): {str(det["apply"])[:120]}')
+        out[d] = {'property': prop, 'apply_error': str(det['apply'])[:200], 'false_alarms': [], 'analysis_errors': ['apply'], 'detected_by': [], 'own_check': False, 'obligations': []}
+        continue
     fa = sorted(k for k, v in det.items() if isinstance(v, dict) and v.get('rc') == 1)
     ae = sorted(k for k, v in det.items() if isinstance(v, dict) and v.get('rc') == 2)
     if kind == 'refactors':
